@@ -164,7 +164,8 @@ def outer_calls(body):
     listed call), whitespace-free"""
     items = []; i = 0
     pat = re.compile(r'\b(' + '|'.join(CALLS) + r')\s*\(|(s->val\s*\[[^\]]*\]\s*=\s*[^;]+);|\b(count)\s*=\s*([^;]+);|\bif\s*\(\s*(n\s*[<>]=?\s*m)\s*\)'
-                     r'|\b(if\s*\(\s*size\s*<=?\s*-?\d+\s*\)\s*\{[^{}]*\})|\b(char\s*\*\s*sub\s*=\s*[^;]+;)')
+                     r'|\b(if\s*\(\s*size\s*<=?\s*-?\d+\s*\)\s*\{[^{}]*\})|\b(char\s*\*\s*sub\s*=\s*[^;]+;)'
+                     r'|\b(if\s*\(\s*val\s+is\s+s->val\s*\)\s*\{[^{}]*\})|\bif\s*\(\s*s->val\s+is\s+NULL\s*\)\s*\{\s*throw\s*\(\s*(\w+)')
     while True:
         m = pat.search(body, i)
         if not m: break
@@ -179,8 +180,12 @@ def outer_calls(body):
             items.append('if(' + nows(m.group(5)) + ')'); i = m.end()
         elif m.group(6):
             items.append(nows(m.group(6))); i = m.end()          # `if (size < 0) { return size; }`: libc rejected the format
-        else:
+        elif m.group(7):
             items.append(nows(m.group(7))); i = m.end()          # `char* sub = c_str(obj);`: the operand must have a C string
+        elif m.group(8):
+            items.append(nows(m.group(8))); i = m.end()          # `if (val is s->val) { return; }`: assign(s, s) is a no-op (744a45f)
+        else:
+            items.append(f'if(s->valisNULL)throw({m.group(9)})'); i = m.end()   # the CELLO_MEMORY_CHECK test: WHERE it stands (63509f2)
     return items
 
 def arg_of(call, idx):
@@ -201,17 +206,22 @@ def to_nat(expr, subst, allowed):
         raise ExtractError(f'size expression `{expr}`: unexpected token `{t}`')
     return ' '.join(toks)
 
+# the CELLO_MEMORY_CHECK test as `outer_calls` records it: in every function it stands directly after the allocation
+OOM = 'if(s->valisNULL)throw(OutOfMemoryError)'
+
 SHAPE_MODELLED = [
-    ('String_New', ['calloc(1,1)']),
-    ('String_Assign', ['realloc(s->val,strlen(val)+1)', 'strcpy(s->val,val)']),
-    ('String_Clear', ['realloc(s->val,1)', "s->val[0]='\\0'"]),
-    ('String_Concat', ['realloc(s->val,strlen(s->val)+strlen(c_str(obj))+1)', 'strcat(s->val,c_str(obj))']),
-    ('String_Resize', ['realloc(s->val,n+1)', 'if(n>m)', 'memset(&s->val[m],0,n-m)', "s->val[n]='\\0'"]),
+    ('String_New', ['calloc(1,1)', OOM]),
+    # after 744a45f: an operand whose C string IS the target's buffer returns before the realloc
+    ('String_Assign', ['if(valiss->val){return;}', 'realloc(s->val,strlen(val)+1)', OOM, 'strcpy(s->val,val)']),
+    ('String_Clear', ['realloc(s->val,1)', OOM, "s->val[0]='\\0'"]),
+    ('String_Concat', ['realloc(s->val,strlen(s->val)+strlen(c_str(obj))+1)', OOM, 'strcat(s->val,c_str(obj))']),
+    # after 63509f2: the result of realloc is tested BEFORE it is written through
+    ('String_Resize', ['realloc(s->val,n+1)', OOM, 'if(n>m)', 'memset(&s->val[m],0,n-m)', "s->val[n]='\\0'"]),
     # after e60e6ec: the operand's C string is taken first (c_str raises ClassError for an object without C_Str)
     ('String_Rem', ['char*sub=c_str(obj);', 'strstr(String_C_Str(self),sub)', 'count=strlen(pos)-strlen(sub)+1',
                     'memmove((char*)pos,pos+strlen(sub),count)']),
     # after a626877: a negative size (libc rejects the format) is returned before anything is touched
-    ('String_Format_To', ['vsnprintf(NULL,0,fmt,va_tmp)', 'if(size<0){returnsize;}', 'realloc(s->val,pos+size+1)', 'vsprintf(s->val+pos,fmt,va)']),
+    ('String_Format_To', ['vsnprintf(NULL,0,fmt,va_tmp)', 'if(size<0){returnsize;}', 'realloc(s->val,pos+size+1)', OOM, 'vsprintf(s->val+pos,fmt,va)']),
     ('String_Format_From', ['vsscanf(s->val+pos,fmt,va)']),
     ('String_Len', ['strlen(s->val)']),
     ('String_Cmp', ['strcmp(String_C_Str(self),c_str(obj))']),
@@ -298,6 +308,12 @@ def gen_str(repo):
     rem = to_nat(cnt, {'strlen(String_C_Str(self))': 'ls', 'strlen(pos)': 'lp', 'strlen(c->c_str(obj))': 'lo', 'strlen(sub)': 'lo'}, ('ls', 'lp', 'lo'))
     if not re.search(r'if\s*\(\s*pos\s+is\s+NULL\s*\)\s*\{\s*throw\s*\(\s*ValueError', bodies['String_Rem']):
         raise ExtractError('String_Rem: `if (pos is NULL) { throw(ValueError …` not found')
+    # 744a45f: `if (val is s->val) { return; }` between `char* val = c_str(obj);` and the realloc
+    sa = dict(shape)['String_Assign']; guard = 'if(valiss->val){return;}'
+    assign_self_returns = guard in sa and sa.index(guard) < sa.index(find('String_Assign', 'realloc('))
+    # 63509f2: the NULL test directly after the realloc of String_Resize, before the memset / terminator store
+    sr = dict(shape)['String_Resize']; ri = sr.index(find('String_Resize', 'realloc('))
+    resize_checks_first = ri + 1 < len(sr) and sr[ri + 1] == OOM
     pos, pos_txt, conv = positions(repo)
     def shape_lean(sh):
         return lean_list(['(' + lean_str(fn) + ', ' + lean_list([lean_str(c) for c in cs]) + ')' for fn, cs in sh])
@@ -323,10 +339,15 @@ def resizeSize (n : Nat) : Nat := {resize}
 def formatSize (pos size : Nat) : Nat := {fmt}
 /-- `String_Rem`: byte count of the memmove; `ls` = strlen(self), `lp` = strlen(pos), `lo` = strlen(c_str(obj)) -/
 def remCount (ls lp lo : Nat) : Nat := {rem}
+/-- `String_Assign`: `if (val is s->val) {{ return; }}` stands before the realloc (744a45f) -/
+def assignSelfReturns : Bool := {'true' if assign_self_returns else 'false'}
+/-- `String_Resize`: the `s->val is NULL` test stands directly after the realloc, before the memset / terminator store (63509f2) -/
+def resizeChecksFirst : Bool := {'true' if resize_checks_first else 'false'}
 
 def params : Cello.Str.Params :=
   {{ newEmptySize := newEmptySize, assignSize := assignSize, clearSize := clearSize, concatSize := concatSize,
-     resizeSize := resizeSize, formatSize := formatSize, remCount := remCount }}
+     resizeSize := resizeSize, formatSize := formatSize, remCount := remCount,
+     assignSelfReturns := assignSelfReturns, resizeChecksFirst := resizeChecksFirst }}
 
 /-! position bookkeeping of `print_to_with`: `off` = the value `format_to` returned, `width` = format characters consumed -/
 {adv_defs}
